@@ -273,17 +273,7 @@ type delivery struct {
 	Shape bool
 }
 
-func closePair(p *chanpair.Pair) {
-	p.Close()
-	go func() {
-		defer func() { _ = recover() }()
-		_ = p.Client.Close()
-	}()
-	go func() {
-		defer func() { _ = recover() }()
-		_ = p.Server.Close()
-	}()
-}
+func closePair(p *chanpair.Pair) { mitm.HardClose(p) }
 
 func run(c Case) (o outcome) {
 	if c.Kind != "server" && c.Kind != "client" {
@@ -713,6 +703,9 @@ func record(c Case, o outcome) {
 			why = why[:i]
 		}
 		rec.Case(false, 0, "harness=no-verdict", "harness=no-verdict: "+strings.TrimSpace(why))
+		if os.Getenv("VERIF_DEBUG") != "" {
+			fmt.Fprintln(os.Stderr, "no verdict:", o.Infra)
+		}
 		return
 	}
 	b, _ := json.Marshal(c)
